@@ -518,6 +518,8 @@ def model_line(im, jpg):
     ids = [c[0] for c in frame["comps"]]
     parts = []
     for s in scans:
+        s["kind"] = ("arith-" if arith else "huff-") + ("seq" if not prog else ("dc" if s["Ss"] == 0 else "ac") + ("first" if s["Ah"] == 0 else "refine")) \
+            + ("-rst" if s["ri"] else "")
         toks = [str(s["ri"]), str(s["Ss"]), str(s["Se"]), str(s["Ah"]), str(s["Al"]), str(len(s["comps"]))]
         for cid, td, ta in s["comps"]:
             need_dc = (not prog) or s["Ss"] == 0 and s["Ah"] == 0
@@ -628,7 +630,7 @@ def gen_script_cases(rng, n):
 # ----------------------------------------------------------------------------- run
 def run(ctx):
     rng = ctx.rng
-    ctx.regen(["NatOrder", "RestartClamp"])
+    ctx.regen(["NatOrder", "RestartClamp", "EntropyBytes"])
     ctx.prove()
     drv = ctx.model_driver()
     flavours = ["simd", "plain"] if not ctx.thorough() else ["simd", "plain", "asan"]
@@ -857,7 +859,9 @@ def run_cases(ctx, cases, exes, drv, flavours):
                     bad = None
                     for sidx, sc in enumerate(scans):
                         nscans_checked += 1
-                        exp = "E " + bytes(sc["data"]).hex()
+                        sk = ctx.cov.setdefault("scans_byte_compared_by_kind", {})
+                        sk[sc.get("kind", "?")] = sk.get(sc.get("kind", "?"), 0) + 1
+                        exp = ("E " + bytes(sc["data"]).hex()).strip()
                         got = es[sidx] if sidx < len(es) else "E <missing>"
                         if got != exp:
                             bad = "model encoder differs from real bytes (%s build) in scan %d (comps=%s Ss=%d Se=%d Ah=%d Al=%d ri=%d): model=%s.. real=%s.." % (
